@@ -1,6 +1,7 @@
 """C02 — every red element reports its exact source span."""
 import re
 from .runner import Property
+from .treefmt import show_text
 from .core import Rng
 from . import gen_events as G, gen_nav as GN
 from .navref import build_tree, check_nav_line, parse_handle
@@ -59,7 +60,20 @@ class C02(Property):
         t = build_tree(toks[2:bar])
         if t is None:
             return None
-        # impl is already projected: the final dump
+        # impl is already projected: the final dump, then (for trees of moderate size) the resolved text of every node
+        texts = None
+        if " texts " in impl or impl.endswith(" texts"):
+            impl, texts = impl.split(" texts", 1)
+            texts = texts.strip()
+        if len(t.order) <= 60:
+            want = "|".join(show_text(t.elem[q].text_of()) for q in t.order if t.is_node(q))
+            if texts is None:
+                return "the resolved node texts are missing from the output"
+            if texts != want:
+                for q, got, w in zip([q for q in t.order if t.is_node(q)], texts.split("|"), want.split("|")):
+                    if got != w:
+                        return "the text of node %s resolves to `%s`, but the slice of the whole text it covers is `%s`" % (t.show(q), got, w)
+                return "resolved node texts differ: " + texts[:200]
         exp = ",".join(t.show(q) for q in t.order)
         if impl != exp:
             g, e = impl.split(","), exp.split(",")
